@@ -309,3 +309,14 @@ check("C34", "internal/zzverif/c34",
       shards=(8, 16), race=True, env={"JAM_FUZZ": "1"},
       floors={"any": {"blocks": 3000, "blocks_at_an_epoch_change": 500, "guarantees": 1500, "guarantees_from_the_previous_rotation": 300, "assurances": 5000, "preimages": 3000, "blocks_with_available_reports": 1000, "service_records": 5000}},
       assumptions=[STANDIN_VRF])
+
+check("C28", "internal/telemetry",
+      rule="case = one run of the real tcpClient over an in-memory fault-injecting net.Conn (installed through tcpClient.dialer): buffer size in {1,2,8,64}, 1..12 emitter goroutines x 40..200 calls of Emit / EmitLazy / EmitFollowup / EmitFollowupLazy (parents: own last ID, another emitter's last ID, InvalidID), every payload tagged (emitter, counter) and the returned ID recorded; "
+           "an injector applies 4..13 faults at random times: write error after 0..200 more bytes (also inside a frame), peer close, stall (writes parked on a channel; a burst of 3*buffer+8 emits is issued while the writer is stuck and must return), partial writes of 1..7 bytes per call on a third of the connections, failing dials, failure inside the node-info frame; Close races with the emitters in a third of the runs; GOMAXPROCS in {1,2,4,16}. "
+           "After the run every connection's captured bytes are parsed by a receiver model and compared with the emitters' records (first frame = node info; implicit counter advanced by each Dropped count; delivered event's counter == seq of the ID its emitter got; one epoch per connection, growing; no event twice; nothing delivered for InvalidID; accepted follow-ups have their parent's epoch and carry its seq; no connection is given up by the client unless the harness injected a fault on it; after a clean Close of a healthy connection the receiver's counter equals the sender's next sequence number). distinct_nontrivial = distinct (connections, drop records, delivered, follow-ups, GOMAXPROCS) tuples observed",
+      technique="offline checker over recorded wire streams and emitter-side ID records (receiver model of JIP-3 framing), real client under fault injection at the net.Conn boundary, Go race detector",
+      level_text="Stress runs of the real client under injected connection faults; every captured stream is replayed through a receiver model and matched with the IDs the emitters received. Held = no misalignment, no blocked emitter and no race report on what was explored.",
+      note="In-package harness (newTCPClient, dialer). The bounded model checking mentioned in the property's quantifier is outside this technique family and is not attempted. 'Never block' is judged as: every Emit issued while the connection's Write is parked returns (watchdog 30 s, more than 10^6 times the cost of an Emit). No sleeps are injected into the client's own code (no gofail rewrite); interleavings come from GOMAXPROCS, buffer sizes, Gosched/sleep in the emitters and the fault script.",
+      shards=(8, 16), race=True, timeout=(900, 7200),
+      floors={"any": {"runs": 300, "reconnects": 300, "drop_records": 300, "events_delivered": 20000, "followups_delivered": 1000, "emits_returned_while_write_stalled": 1000, "close_racing_with_emitters": 50, "dial_failures": 30, "clean_ends_with_counter_equal_to_next_seq": 50}},
+      assumptions=[STANDIN_VRF])
